@@ -794,7 +794,7 @@ func ruleV4c(c *Ctx) *RuleResult {
 			viaReceiver := false
 			for _, st := range storesToField(c, fn, f) {
 				blocked[st.Block().Index] = true
-				if _, fresh := rootOf(st.Addr).(*ssa.Alloc); !fresh {
+				if !freshObject(st.Addr) {
 					viaReceiver = true
 				}
 			}
